@@ -10,6 +10,26 @@ TB = ("Trusted: Lean 4.33 kernel; axioms propext/Classical.choice/Quot.sound onl
       "machine integers modelled as unbounded Int. ")
 
 CHECKS = {
+    "C01": dict(
+        text="Logical skeleton: constraints are modelled as formulas over theory/boolean atoms, encoded with the constructor model of C13 exactly as core::conj/disj/eq/negate do; 4 theorems C01_* prove for ALL formulas: in every total model the literal of a constraint has the constraint's truth value, and - for the PARTIAL assignment the solver ends with - at any unit-propagation fixpoint (which C07_bcp_fixpoint establishes) in which the atoms are decided, every sub-formula literal is decided with the right value, so every asserted constraint is true under the atoms' values (also for lists of constraints sharing sub-formulas through the cache). The theory side (values satisfy every assigned theory literal) is C09/C10/C12/C14. End to end: seeded constraint networks built around a planted assignment are solved by the REAL solver in every configuration of the tier and every asserted constraint is evaluated under the reported values with exact rational arithmetic.",
+        note=TB + "PARTIAL: the planner's search (which literals get decided) is not modelled; the theorem's hypothesis 'atoms decided' is exactly what the implementation does not guarantee outside the core fragment - recorded known finding `undecided-constraint-literals` (!=, negated compounds, ^, boolean ==/!= may leave atoms undecided and the exposed values then violate the constraint).",
+        technique="Lean 4 theorems (Tseitin encoding sound for partial assignments at a BCP fixpoint, by mutual induction over formulas on top of C13) + end-to-end exact solution oracle on generated programs in every solver configuration",
+        design="§6 C01"),
+    "C04": dict(
+        text="The pulse sweep of state_variable.cpp (detection loop of get_current_incs, extract_timelines) is modelled in Lean (OratioModel/Solver/Sweep.lean); 5 theorems C04_* prove for ANY number of atoms with epsilon-rational times: the sweep reports a pair iff the two atoms' [start,end) intersect (so an empty report means no overlap anywhere), every reported pair really overlaps, the ordering resolvers separate a pair, and each timeline segment lists exactly the atoms covering it. Tie: the implementation's extracted timelines are compared segment by segment with svTimeline run by the native Lean driver on the solution's atoms, svPeaks must be empty on every reported solution, and an exact oracle checks pairwise non-overlap per state-variable instance in every reported solution of generated programs, in every configuration of the tier.",
+        note=TB + "PARTIAL: the flaw/resolver search around the sweep is validated end to end (oracle), not modelled. get_current_incs itself is observed only through the solutions it lets through and the timelines.",
+        technique="Lean 4 theorems on the sweep model + timeline correspondence (implementation JSON vs native Lean driver) + end-to-end exact oracle",
+        design="§6 C04"),
+    "C05": dict(
+        text="The pulse sweep of reusable_resource.cpp (peak test, extract_timelines with usage) is modelled in Lean; 3 theorems C05_* prove for any number of atoms, epsilon-rational times and amounts: no peak is found iff at EVERY instant the amounts of the covering atoms sum to at most the capacity, a reported peak is an instant where the capacity is exceeded, and the usage shown for a segment is the sum over the covering atoms. Tie: extracted timelines (segments, atoms, usage) compared with rrTimeline run by the native Lean driver; rrPeaks must be empty on every reported solution; exact oracle on generated programs in every configuration of the tier.",
+        note=TB + "PARTIAL: the MCS/resolver search is validated end to end, not modelled. The iff needs 'some atom or capacity >= 0' (a resource with no atom and negative capacity has no pulse to test) - stated as hypothesis h0 with the refuting example.",
+        technique="Lean 4 theorems on the sweep model + timeline correspondence + end-to-end exact oracle",
+        design="§6 C05"),
+    "C08": dict(
+        text="4 theorems C08_* prove for the generic difference-logic model (both instances) and the SAT core model: push followed by ANY sequence of propagations and a pop restores distances, predecessors and the responsible-constraint map exactly (first-write-wins undo log), for any nesting depth; the SAT pop restores values/levels/reasons/trail. Tie: harness/net.cpp vs the native Lean driver, exact state equality after every call on histories nesting up to 12 levels over both theories; oracle: a snapshot of everything visible taken when a level is opened must be identical after the matching pop when no clause was learnt in between, otherwise distances must equal shortest paths of the asserted constraints and no root literal may be lost.",
+        note=TB + "The responsible-constraint map is compared as a sorted association list (Dl.KeysSorted hypothesis, established by the model's insert). LRA undo is covered by C09's correspondence.",
+        technique="Lean 4 theorems (undo-log inverse, by induction over the propagation sequence) + differential state correspondence + snapshot oracle",
+        design="§6 C08"),
     "C15": dict(
         text="Every overload of rational, inf_rational and lin is modelled one-to-one in Lean; theorems C15_* prove, for all canonical operands, that results are canonical and denote the exact extended-rational value, that comparisons are the total order of the denotations (infinities included) and that lin operators act coefficient-wise. The model is tied to the code by exact output equality on an exhaustive small grid plus seeded random operands through all 126 overloads, and an independent exact-arithmetic oracle judges the implementation's own results.",
         note=TB + "Overflow of long excluded (as the property says); operations the C++ rejects by assert are excluded by explicit Defined hypotheses; scalar/inf_rational is a recorded known finding.",
@@ -84,7 +104,7 @@ def main():
             "guard": "PSTLAB_ORATIO_VERIF",
             "enable": "harnesses are compiled by tools/vlib.py from /repo's working tree with -DPSTLAB_ORATIO_VERIF (direct g++ of the needed sources, or cmake -DCMAKE_CXX_FLAGS=-DPSTLAB_ORATIO_VERIF for whole-solver checks)",
             "baseline_off_cmd": "/verif/tools/baseline.sh",
-            "source_commits": [],
+            "source_commits": ["813cd3840c821cd6d4af965a7ffa805809ef787e"],
             "add_only": True,
         },
         "engines": [{"name": "lean-proof+correspondence", "path": "/verif/tools/run.py",
